@@ -123,7 +123,7 @@ def explore_parallel(pool, jobs, tier, nproc, max_paths=400000):
         for cn, cs in fr["cases"].items():
             if not any(k != "(cut)" for k in cs["exits"]) and not fr["undecided"]:
                 fr["undecided"].append(f"{cn}: no path reaches an exit (vacuous contract case)")
-            elif "normal" not in cs["exits"] and key not in reg.NEVER_RETURNS and not fr["undecided"]:
+            elif "normal" not in cs["exits"] and "(cut)" not in cs["exits"] and key not in reg.NEVER_RETURNS and f"{key}/{cn}" not in reg.NEVER_RETURNS and not fr["undecided"]:
                 fr["undecided"].append(f"{cn}: no path returns normally (contract case vacuous for its normal post-condition)")
     return fn_reports, list(results.values()), errors
 
